@@ -84,10 +84,13 @@ const (
 	OpPrefixReduce // Reduce(Prefixed(s, 2))
 	OpScan
 	OpWriterFunc
+	// OpCache is bigslice.Cache(s, Program.CacheDir/...): the identity on rows.
+	// It is not part of any alphabet of the enumerator (see ext.go).
+	OpCache
 	numOpKinds
 )
 
-var opNames = [...]string{"Map", "Filter", "Flatmap", "Fold", "Head", "Reduce", "Cogroup", "Reshuffle", "Repartition", "Reshard", "Prefixed2Reduce", "Scan", "WriterFunc"}
+var opNames = [...]string{"Map", "Filter", "Flatmap", "Fold", "Head", "Reduce", "Cogroup", "Reshuffle", "Repartition", "Reshard", "Prefixed2Reduce", "Scan", "WriterFunc", "Cache"}
 
 // Variants (Op.Var).
 const (
@@ -209,6 +212,9 @@ type Program struct {
 	// Tag selects the side-effect recording table that Scan/WriterFunc
 	// callbacks write to (see NewRecording). 0 = callbacks do not record.
 	Tag uint64
+	// Ext holds the optional extensions of ext.go (pragma placement, row
+	// counting, cache directory). The zero value changes nothing.
+	Ext
 }
 
 func (s Source) String() string {
@@ -249,6 +255,7 @@ func (p Program) String() string {
 	for _, o := range p.Ops {
 		b.WriteString(" | " + o.String())
 	}
+	b.WriteString(p.Ext.String())
 	return b.String()
 }
 
@@ -502,7 +509,7 @@ func Apply(t Type, o Op, src2 *Source) (Type, bool) {
 		return Type{Cols: t.Cols, Prefix: 2, PrefixKnown: true}, true
 	case OpScan:
 		return Type{Prefix: 1, PrefixKnown: true}, true
-	case OpWriterFunc:
+	case OpWriterFunc, OpCache:
 		return same, true
 	}
 	return t, false
